@@ -199,6 +199,7 @@ def _open_text(text, want):
 
 
 _OPENER = [_open_text]          # how `route` hands the text to the library (text object / by path)
+_DEBUG_LOG = [False]            # the library's logger is enabled for DEBUG (set by route_by_path)
 
 
 def route(ni: int, nj: int, pi: int, crlf: bool, missing: int,
@@ -260,7 +261,7 @@ def _route_core(ni, nj, pi, crlf, missing, use_none, sel0, sel1, sel_absent, emp
         if dup and want:
             want.append(want[0])        # a selection may name a pair twice (e.g. two overlapping lists concatenated)
     rec = _Rec()
-    log = H.CountingLogger()
+    log = H.CountingLogger(debug_on=_DEBUG_LOG[0])
     rec.install()
     try:
         with H.patched((C, "logger", log)):
@@ -392,7 +393,7 @@ def _real_file_parse(text, bom, want):
         return Chart.from_filepath(pth, want_tracks=want)
 
 
-def route_by_path(ni: int, pi: int, crlf: bool, bom: bool, sel0: bool, use_none: bool) -> bool:
+def route_by_path(ni: int, pi: int, crlf: bool, bom: bool, sel0: bool, use_none: bool, dbg: bool = False) -> bool:
     """
     pre: 0 <= ni < len(NAME_SLICE) and 0 <= pi < len(PERMS)
     pre: not use_none or not sel0
@@ -423,12 +424,28 @@ def route_by_path(ni: int, pi: int, crlf: bool, bom: bool, sel0: bool, use_none:
         return chart
 
     _OPENER[0] = opener
+    _DEBUG_LOG[0] = True if dbg else False      # ... in an application that runs the library's loggers at DEBUG
     try:
         return _route_core(ni, 0, pi, crlf, 0, use_none, sel0, False, False, 0)
     except RegexNotMatchError:
         return done(False)          # e.g. the mark left in front of the first header
     finally:
         _OPENER[0] = _open_text
+        _DEBUG_LOG[0] = False
+
+
+def route_twice(ni: int, nj: int, pi: int, sel_first: bool, absent_first: bool, use_none2: bool, sel2: bool) -> bool:
+    """
+    pre: 0 <= ni < len(NAME_SLICE) and 0 <= nj < len(NAME_SLICE) and ni != nj and 0 <= pi < len(PERMS)
+    pre: not use_none2 or not sel2
+    post: _
+    """
+    # two parses in one process: a restricted parse of a file with section ni (selection: that pair and/or
+    # a pair absent from the file), then a parse of ANOTHER file (section nj, no section for the first
+    # selection): the second result is what it would be as the first parse
+    a = _route_core(ni, 0, 0, False, 0, False, sel_first, False, absent_first, 0)
+    b = _route_core(nj, 0, pi, False, 0, use_none2, sel2, False, False, 0)
+    return a and b
 
 
 # ---------------------------------------------------------------------------------------------
